@@ -60,6 +60,12 @@ def _days(dt):
     """Get the days (floating point) from *d_t*."""
     if hasattr(dt, "shape"):
         dt = np.asanyarray(dt, dtype=np.timedelta64)
+    if hasattr(dt, "dtype") and np.datetime_data(dt.dtype)[0] in ("ns", "ps", "fs", "as"):
+        # Tick counts finer than microseconds exceed 2**53 a few months away from the reference and are
+        # rounded when converted to float: divide the whole microseconds (exact, as for datetime
+        # inputs) and the sub-microsecond remainder separately so that one instant gives one value.
+        whole = dt.astype("timedelta64[us]")
+        return whole / np.timedelta64(1, "D") + (dt - whole) / np.timedelta64(1, "D")
     return dt / np.timedelta64(1, "D")
 
 
